@@ -106,6 +106,21 @@ let () =
         if a <> mt || b <> lt then Printf.printf "MISMATCH %s walk model_mem=%s model_lazy=%s\n" id a b
         else if tops <> "-" && not hyp then Printf.printf "MISMATCH %s walk layout_at-false-on-generated-file\n" id
         else Printf.printf "OK %s%s\n" id (if hyp then " H" else "")
+      | ["M"; id; filehex; z; orc; ms; ls] ->
+        (* File.Mdat selection of a progressive file in both modes (C08SelModel) *)
+        let f = bytes_of_hex filehex in
+        let zf = (z = "1") in
+        let fuel = nat_of_int (L.length f / 8 + 4) in
+        let r () = { rpos = n_of_int 0; rorc = orc_of orc } in
+        let sel lz = match C08SelModel.decode_file_mdat fuel lz f zf (r ()) with
+          | Base.Ok None -> "o:-"
+          | Base.Ok (Some m) ->
+            let (((sp, large), size), pao) = C08SelModel.mdat_view m in
+            Printf.sprintf "o:%s:%s:%s:%s" (hex_of_n sp) (b2s large) (hex_of_n size) (hex_of_n pao)
+          | Base.Err -> "e" | Base.Panic -> "p" | Base.OutOfFuel -> "FUEL" in
+        let a = sel false and b = sel true in
+        if a = ms && b = ls then Printf.printf "OK %s\n" id
+        else Printf.printf "MISMATCH %s file-mdat model_mem=%s model_lazy=%s\n" id a b
       | ["T"; id; sizes; uni; offs] ->
         tb := { sample_sizes = L.map n_of_int (ints_of_csv sizes); uniform_size = n_of_int (int_of_string uni);
                 chunk_offsets = L.map n_of_int (ints_of_csv offs) };
